@@ -353,9 +353,12 @@ impl Model {
                     MustOk
                 }
             }
-            Op::RawCopy { .. } => {
+            Op::RawCopy { rename, .. } => {
                 if closed || !self.pending_ok() {
                     MustErr
+                } else if rename.as_ref().map(|n| n.len() > 65535).unwrap_or(false) {
+                    // the new name does not fit the 16-bit length field
+                    if self.cfg.enforce_unrepresentable { MustErr } else { Either }
                 } else {
                     MustOk
                 }
